@@ -105,15 +105,36 @@ def main(tier):
                 rep.violation("hop_selection_differs_from_rule", b, what="attempt_hop")
             if ex["norm"] > 1e-14:
                 rep.violation("zero_coupling_changes_populations", {"maxdiff": ex["norm"]}, what="norm")
+        # (a) non-zero coupling: the total population drifts only at the order of the integrator (monitored: the drift falls by
+        # 2^4 .. 2^5 when the number of sub-steps doubles; classical fourth-order Runge-Kutta on a norm-conserving linear system)
+        ncases = [dict(nstates=ns, sub=sub, dt=dt, scale=sc, seed=100 * ns + k, spike=sp) for ns in (2, 3, 4, 5, 6, 7, 8) for sc in (0.05, 0.5, 2.0) for sp in (False, True)
+                  for k, (dt, sub) in enumerate(((0.5, 4), (0.1, 2)) if tier == "quick" else ((0.5, 4), (0.1, 2), (1.0, 8), (0.25, 3)))]
+        nres = common.run_forked(ncases, fssh_driver.norm_order, timeout=600)
+        norm_info = {"cases": len(ncases), "ratios_checked": 0, "ratio_min": 1e9, "ratio_max": 0.0, "largest_drift": 0.0}
+        for c, rr in zip(ncases, nres):
+            if not rr.get("ok"):
+                rep.machinery("norm-order monitor failed: " + str(rr.get("error")))
+                continue
+            d = [max(x) for x in rr["result"]]
+            norm_info["largest_drift"] = max(norm_info["largest_drift"], d[0])
+            for a, b in zip(d, d[1:]):
+                if b > a and a > 1e-13:
+                    rep.violation("population_drift_grows_with_finer_substeps", {"case": c, "drift": d}, what="norm_order", nstates=c["nstates"])
+                if b > 1.0e-11 and a < 0.05:           # above round-off, inside the asymptotic regime
+                    norm_info["ratios_checked"] += 1
+                    norm_info["ratio_min"] = min(norm_info["ratio_min"], a / b)
+                    norm_info["ratio_max"] = max(norm_info["ratio_max"], a / b)
+                    if a / b < 10.0:          # faster decay is welcome (error terms of different order can cancel)
+                        rep.violation("population_drift_not_at_integrator_order", {"case": c, "drift": d, "ratio": a / b}, what="norm_order", nstates=c["nstates"])
         hops = [b for b in behs if any(i["accept"] for s in b["steps"] for i in s["info"])]
         cov = {
             "states": states, "transitions": trans, "traces_validated_against_impl": len(behs), "behaviours_matching": len(behs) - nbad,
             "samples": [{"inputs": [s["in"] for s in b["steps"]], "log": b["log"]} for b in hops[:2]] or [{"note": "none"}],
-            "deviations_refuted_on_model": refuted, "zero_coupling_population_change": ex.get("norm"),
+            "deviations_refuted_on_model": refuted, "zero_coupling_population_change": ex.get("norm"), "population_drift_order": norm_info,
             "evaluations": len(behs), "distinct_nontrivial": len([b for b in behs if b["log"]]),
             "rule": "behaviours exported from TLC (every ExportMod-th terminal state of four FSSH configurations); non-trivial = at least one hop-log event", "exhaustive": False,
         }
         return rep.finish(cov, assumptions=["one atom per trajectory, masses {1,2}, integer velocity/coupling vectors, at most one accepted stochastic hop per trajectory (exact arithmetic)",
-                                            "the hold-off tick of _do_integrator_step is performed by the driver", "RK4 norm preservation for non-zero coupling is not decided"])
+                                            "the hold-off tick of _do_integrator_step is performed by the driver", "non-zero coupling: the order of the population drift is a monitored numeric predicate (the drift falls by at least 10 per doubling of the sub-steps)"])
     finally:
         common.rm(scratch)
